@@ -21,6 +21,7 @@ const (
 
 // CopyWithCallback copies reader to writer while performing a progress callback
 func CopyWithCallback(writer io.Writer, reader io.Reader, totalSize int64, cb CopyCallback) (int64, error) {
+	writer = VerifWriter(writer)
 	if success, _ := CloneFile(writer, reader); success {
 		if cb != nil {
 			cb(totalSize, totalSize, 0)
